@@ -64,14 +64,45 @@ pub fn full_env(d: &Dirs) -> Vec<(OsString, OsString)> {
     ]
 }
 
+/// A complete, valid scenario of ANOTHER buildpack (different id, version, metadata, platform env, plan, store) that `vbp`
+/// runs in-process before the real invocation when VBP_WARMUP_ROOT points to it. Returns the directory.
+pub fn prepare_warmup(root: &Path) -> PathBuf {
+    let w = root.join("warmup");
+    for d in ["buildpack", "app", "layers", "platform/env"] {
+        std::fs::create_dir_all(w.join(d)).unwrap();
+    }
+    std::fs::write(w.join("buildpack/buildpack.toml"), "api = \"0.10\"\n\n[buildpack]\nid = \"warm/up\"\nversion = \"9.9.9\"\nname = \"the other buildpack\"\nclear-env = true\nkeywords = [\"warm\"]\n\n[[targets]]\nos = \"warm-os\"\narch = \"warm-arch\"\n\n[metadata]\nwarm = \"up\"\n").unwrap();
+    std::fs::write(w.join("platform/env/WARM_ONLY"), b"from the warm-up platform").unwrap();
+    std::fs::write(w.join("platform/env/FROM_PLATFORM"), b"warm").unwrap();
+    std::fs::write(w.join("plan.toml"), "[[entries]]\nname = \"warm-entry\"\n[entries.metadata]\nwarm = true\n").unwrap();
+    std::fs::write(w.join("layers/store.toml"), "[metadata]\nwarm = \"store\"\n").unwrap();
+    std::fs::write(w.join("script.json"), "{\"dump\": false, \"detect\": \"pass\", \"build\": {\"kind\": \"ok\"}}").unwrap();
+    w
+}
+
 pub fn run(r: &BpRun) -> BpOutcome {
     let d = dirs(r.root);
     std::fs::create_dir_all(&d.ctl).unwrap();
     let bin = d.ctl.join("bin");
     std::fs::create_dir_all(&bin).unwrap();
-    let exe = bin.join(r.exe_name);
-    let _ = std::fs::remove_file(&exe);
-    std::os::unix::fs::symlink(bin_dir().join("vbp"), &exe).unwrap();
+    // "@arg0:<argv0>:<file name>": the executable FILE is really called <file name> (a copy, as in a packaged buildpack
+    // where bin/build is the binary itself) but the process is started with the given argv[0]
+    let (exe, arg0): (PathBuf, Option<String>) = match r.exe_name.strip_prefix("@arg0:").and_then(|s| s.split_once(':')) {
+        Some((argv0, file)) => {
+            let exe = bin.join(file);
+            let _ = std::fs::remove_file(&exe);
+            if std::fs::hard_link(bin_dir().join("vbp"), &exe).is_err() {
+                std::fs::copy(bin_dir().join("vbp"), &exe).expect("harness: copy vbp");
+            }
+            (exe, Some(argv0.to_string()))
+        }
+        None => {
+            let exe = bin.join(r.exe_name);
+            let _ = std::fs::remove_file(&exe);
+            std::os::unix::fs::symlink(bin_dir().join("vbp"), &exe).unwrap();
+            (exe, None)
+        }
+    };
     let script_path = d.ctl.join("script.json");
     std::fs::write(&script_path, r.script.to_string()).unwrap();
     let markers = d.ctl.join("markers");
@@ -79,6 +110,9 @@ pub fn run(r: &BpRun) -> BpOutcome {
     let _ = std::fs::remove_file(&markers);
     let _ = std::fs::remove_file(&dump);
     let mut cmd = std::process::Command::new(&exe);
+    if let Some(a0) = &arg0 {
+        std::os::unix::process::CommandExt::arg0(&mut cmd, a0);
+    }
     cmd.args(&r.args)
         .env_clear()
         .envs(r.env.iter().cloned())
